@@ -37,6 +37,11 @@ enum Op {
     /// the host supplies a new ROM set (Emulator::load_rom) in the middle of the history: the contents of the
     /// ROM pages change, the map (which page is seen below 0x4000), the latch and the lock do not
     Rom(usize, usize),
+    /// the host saves an SNA snapshot: what the CPU sees — map, latch, lock, every byte — stays as it was
+    Save,
+    /// tape fast-load (the ROM's LD-BYTES trap) of `len` pattern bytes to `ix`, ranges that reach below 0x4000 or
+    /// wrap past 0xFFFF included: the stores are the ROM routine's `LD (IX+0),L` — ROM ignores them
+    Tape(u16, u16),
 }
 
 impl Op {
@@ -47,6 +52,8 @@ impl Op {
             Op::Rd(a) => format!("rd {:04x}", a),
             Op::Szx(v) => format!("szx {:02x}", v),
             Op::Rom(a, b) => format!("rom {:x} {:x}", a, b),
+            Op::Save => "save".into(),
+            Op::Tape(ix, n) => format!("tape {:04x} {:x}", ix, n),
         }
     }
     fn parse(s: &str) -> Option<Op> {
@@ -58,6 +65,8 @@ impl Op {
             ["rd", a] => Some(Op::Rd(h(a)?)),
             ["szx", v] => Some(Op::Szx(h(v)? as u8)),
             ["rom", a, b] => Some(Op::Rom(h(a)? as usize, h(b)? as usize)),
+            ["save"] => Some(Op::Save),
+            ["tape", a, n] => Some(Op::Tape(h(a)?, h(n)?)),
             _ => None,
         }
     }
@@ -66,6 +75,8 @@ impl Op {
 struct Machine {
     e: Emu,
     m128: bool,
+    /// the ROM pages are all zero: the byte at the fast-load trap address is a NOP
+    zero_rom: bool,
 }
 
 fn supply_roms(e: &mut Emu, m128: bool, rom_seeds: Option<(usize, usize)>, lines: &mut Vec<String>) {
@@ -87,10 +98,13 @@ fn supply_roms(e: &mut Emu, m128: bool, rom_seeds: Option<(usize, usize)>, lines
 }
 
 fn fresh(m128: bool, rom_seeds: Option<(usize, usize)>, lines: &mut Vec<String>) -> Machine {
-    let mut e = emu(&Cfg::new(m128));
+    let mut c = Cfg::new(m128);
+    c.fastload = true;
+    let mut e = emu(&c);
+    e.set_debug_interface(Dbg { break_all: true, ..Default::default() });
     lines.push(format!("new {}", if m128 { 128 } else { 48 }));
     supply_roms(&mut e, m128, rom_seeds, lines);
-    Machine { e, m128 }
+    Machine { e, m128, zero_rom: rom_seeds.is_none() }
 }
 
 /// probe addresses: window edges and one inner byte per window
@@ -130,6 +144,45 @@ fn apply(m: &mut Machine, ops: &[Op], probes: &[u16], lines: &mut Vec<String>, c
             Op::Rom(a, b) => {
                 let m128 = m.m128;
                 supply_roms(&mut m.e, m128, Some((*a, *b)), lines);
+                m.zero_rom = false;
+            }
+            Op::Save => {
+                let _ = crate::c13::snap::save_sna(&mut m.e);
+            }
+            Op::Tape(ix, n) => {
+                // one TAP block (flag 0xFF, data, parity) entered through the trap address with LOAD parameters; the
+                // trap instruction itself is whatever the ROM holds there — on these machines a byte of a pattern page
+                // or zero — so the CPU registers are restored afterwards and only memory is compared
+                let data: Vec<u8> = (0..*n as usize).map(|i| (i as u8).wrapping_mul(5).wrapping_add(*ix as u8) | 1).collect();
+                let mut blk = vec![0xFFu8];
+                blk.extend_from_slice(&data);
+                let par = blk.iter().fold(0u8, |a, b| a ^ b);
+                blk.push(par);
+                let mut tap = vec![(blk.len() & 0xFF) as u8, (blk.len() >> 8) as u8];
+                tap.extend_from_slice(&blk);
+                let trap_ready = m.zero_rom && m.e.load_tape(rustzx_core::host::Tape::Tap(VAsset::new(tap))).is_ok();
+                if trap_ready {
+                    let saved_pc;
+                    {
+                        let cpu = m.e.verif_cpu();
+                        saved_pc = cpu.regs.get_pc();
+                        cpu.regs.set_af(0xFF01);
+                        cpu.regs.swap_af_alt();
+                        cpu.regs.set_ix(*ix);
+                        cpu.regs.set_de(*n);
+                        cpu.regs.set_sp(0x9000);
+                        cpu.regs.set_pc(0x056A);
+                        cpu.regs.set_iff1(false);
+                        cpu.halted = false;
+                    }
+                    let _ = m.e.emulate_frames(std::time::Duration::from_secs(1));
+                    let loaded = m.e.verif_cpu().regs.get_ix().wrapping_sub(*ix) as usize;
+                    m.e.verif_cpu().regs.set_pc(saved_pc);
+                    for (i, v) in data.iter().enumerate().take(loaded.min(data.len())) {
+                        lines.push(format!("wr {:04x} {:02x}", ix.wrapping_add(i as u16), v));
+                    }
+                    // the return address the trap pops lies at 0x9000/0x9001: read only
+                }
             }
             Op::Rd(a) => {
                 let got = m.e.verif_read_mem(*a, 3);
@@ -282,6 +335,8 @@ fn op_class(o: &Op) -> String {
         Op::Rd(a) => format!("rd@{:x}", a >> 14),
         Op::Szx(_) => "szx-load".into(),
         Op::Rom(..) => "host-rom-set".into(),
+        Op::Save => "host-sna-save".into(),
+        Op::Tape(ix, n) => format!("fast-load{}", if (*ix as u32) < 0x4000 || *ix as u32 + *n as u32 > 0x10000 { "-through-rom" } else { "" }),
     }
 }
 
@@ -331,6 +386,12 @@ fn random_ops(rng: &mut Rng, n: usize) -> Vec<Op> {
             }
             3 if rng.chance(1, 6) => Op::Szx(rng.u8()),
             4 if rng.chance(1, 5) => Op::Rom(rng.below(200) as usize, rng.below(200) as usize),
+            5 if rng.chance(1, 5) => Op::Save,
+            6 if rng.chance(1, 6) => {
+                let n = rng.range(1, 40) as u16;
+                let ix = match rng.below(4) { 0 => 0x3FF0u16.wrapping_add(rng.below(20) as u16), 1 => 0xFFF0u16.wrapping_add(rng.below(12) as u16), 2 => 0xBFF0 + rng.below(20) as u16, _ => rng.u16() };
+                Op::Tape(ix, n)
+            }
             3..=7 => Op::Wr(addr(rng), rng.u8() | 1),
             _ => Op::Rd(addr(rng)),
         })
@@ -342,7 +403,7 @@ pub fn run(o: &Opts) -> Report {
     rep.rule = "exhaustive part: from every one of the 64 paging states (bank 0-7 x screen x ROM x lock) every one of the \
 256 latch values is written, with marker bytes unique per RAM bank and ROM page; random part: seeded histories (<=40 ops) \
 of paging writes (canonical and partially decoded port addresses), memory writes and reads through all four windows, \
-on both machines, with host-supplied ROM sets (at the start and again in the middle of a history, e.g. while ROM 1 is selected or paging is locked); after every operation the paging registers and 12 probe addresses are \
+on both machines, with host-supplied ROM sets (at the start and again in the middle of a history, e.g. while ROM 1 is selected or paging is locked), host SNA saves and tape fast-loads whose range reaches below 0x4000 or wraps past 0xFFFF; after every operation the paging registers and 12 probe addresses are \
 compared; plus whole-machine lock-step runs of CPU programs made of 16-bit loads/stores/stack operations straddling the window boundaries, with the complete RAM of all banks compared afterwards. distinct/non-trivial = distinct (machine, address, non-zero value read) observations".into();
     let mut model = Model::spawn(&o.model, "C06");
 
